@@ -657,3 +657,41 @@ class AutoOrigin(Peer):
         if isinstance(self.inner, H1Server):
             return [r.target for r in self.inner.requests]
         return []
+
+
+class TruncatingPeer(Peer):
+    """Wraps a peer: lets through only the first `limit` bytes of its output,
+    then closes the connection (server-side disconnect mid-message)."""
+
+    def __init__(self, inner: Peer, limit: int | None) -> None:
+        super().__init__()
+        self.inner = inner
+        self.limit = limit
+        self.sent = 0
+        self.truncated = False
+
+    def _drain(self) -> None:
+        data, self.inner.out = self.inner.out, b""
+        if self.limit is not None and self.sent + len(data) >= self.limit:
+            if self.sent + len(data) > self.limit or True:
+                data = data[: self.limit - self.sent]
+                self.truncated = True
+                self.closed = True
+        self.sent += len(data)
+        self.out += data
+        if self.inner.closed:
+            self.closed = True
+
+    def receive(self, data: bytes) -> None:
+        if self.closed:
+            return
+        self.inner.receive(data)
+        self._drain()
+
+    def on_tls(self, server_hostname: str | None, offered: list[str] | None) -> str | None:
+        sel = self.inner.on_tls(server_hostname, offered)
+        self._drain()
+        return sel
+
+    def __getattr__(self, name: str) -> typing.Any:
+        return getattr(self.__dict__["inner"], name)
